@@ -2,6 +2,7 @@ package c16
 
 import (
 	"bytes"
+	"strings"
 	"os"
 	"fmt"
 	"regexp"
@@ -243,6 +244,7 @@ func (ck *checker) partTerminal() {
 	}
 	ck.optionsProbe(s.Addr())
 	ck.interpreterProbe()
+	ck.followAuthProbe()
 }
 
 // optionsProbe: one HTTP OPTIONS request gets one response, however many
@@ -369,6 +371,11 @@ func (ck *checker) interpreterProbe() {
 		{"SCAN", "ik", "WHEREEVAL", "this is not lua(", "0"},
 		{"SCAN", "ik", "WHEREEVALSHA", "0123456789012345678901234567890123456789", "0"},
 		{"NEARBY", "ik", "WHEREEVAL", "return 1", "3", "x", "POINT", "1", "2"},
+		// the clause itself is fine, a later token is not
+		{"SCAN", "ik", "WHEREEVAL", "return true", "0", "LIMIT", "0"},
+		{"SCAN", "ik", "WHEREEVAL", "return true", "0", "CURSOR", "x"},
+		{"NEARBY", "ik", "WHEREEVAL", "return true", "0", "DESC", "POINT", "1", "2"},
+		{"WITHIN", "ik", "WHEREEVAL", "return true", "0", "WHEREEVAL", "return true", "0", "BOUNDS", "1", "2"},
 	}
 	const per = 1100
 	for _, sh := range shapes {
@@ -410,4 +417,47 @@ func (ck *checker) interpreterProbe() {
 		}
 	}
 	ctx.Count("interpreter_probe_rejected_commands", int64(per*len(shapes)))
+}
+
+// followAuthProbe: FOLLOW with a leader password against a leader that has
+// none (its AUTH is refused) is answered with an error; the process stays up.
+func (ck *checker) followAuthProbe() {
+	ctx := ck.ctx
+	leader := ck.startServer()
+	defer leader.Kill9()
+	s := ck.startServer()
+	defer s.Kill9()
+	c, err := wire.Dial(s.Addr(), ioTimeout)
+	if err != nil {
+		ctx.Inconclusive("follow-auth probe: " + err.Error())
+		return
+	}
+	defer c.Close()
+	do := func(args ...string) string {
+		if err := c.Write(wire.EncodeRESP(args...)); err != nil {
+			return "write: " + err.Error()
+		}
+		f, err := c.Next(wire.RESP, ioTimeout)
+		if err != nil {
+			return "read: " + err.Error()
+		}
+		return string(f)
+	}
+	lport := leader.Addr()[strings.LastIndexByte(leader.Addr(), ':')+1:]
+	seq := [][]string{{"CONFIG", "SET", "leaderauth", "no-such-password"}, {"FOLLOW", "127.0.0.1", lport}, {"PING"}, {"FOLLOW", "127.0.0.1", "1"}, {"PING"}, {"FOLLOW", "no", "one"}, {"SET", "fa", "a", "POINT", "1", "2"}}
+	var replies []string
+	for _, cmd := range seq {
+		replies = append(replies, do(cmd...))
+	}
+	time.Sleep(100 * time.Millisecond)
+	ctx.Eval(1)
+	ctx.Distinct("term:follow-leaderauth-refused")
+	if !s.Alive() {
+		_, site := s.Crashed()
+		ck.report(crashKey(site), fmt.Sprintf("server died on %v (replies %q): %s", seq, replies, site), map[string]any{"commands": seq, "replies": replies, "stderr": s.StderrTail(3000)})
+		return
+	}
+	if !strings.HasPrefix(replies[1], "-") || replies[2] != "+PONG\r\n" || replies[len(replies)-1] != "+OK\r\n" {
+		ck.report("seg-terminal:follow-leaderauth", fmt.Sprintf("sequence %v answered %q: FOLLOW against a leader that refuses AUTH must be an error and the connection must go on working", seq, replies), map[string]any{"commands": seq, "replies": replies})
+	}
 }
